@@ -146,7 +146,12 @@ def run(ctx):
         roundtrip_singleton("unit", model.show(term), u, False)
         if len(cross) < (60 if ctx.tier == "quick" else 600):
             cross.append(("unit", term, u))
-        mag = rng.choice([rng.randint(-10**6, 10**6), 10**30, core.sf(round(rng.uniform(-1e5, 1e5), 4)), 1e-7, Decimal("12.50"), Decimal(repr(round(rng.uniform(-100, 100), 3)))])
+        mag = rng.choice([
+            rng.randint(-10**6, 10**6), 0, -1, 2**60, 10**30, -(2**63) - 1,                              # int: small, zero, beyond double precision
+            round(rng.uniform(-1e5, 1e5), 4), 1e-7, 5.0, -0.0, 1e22, 123456789.125,                      # float: fractional, integral, signed zero
+            Decimal("12.50"), Decimal(repr(round(rng.uniform(-100, 100), 3))), Decimal("5"), Decimal(-12),  # Decimal: trailing zero, integral
+            Decimal(1000), Decimal("1E+3"), Decimal("0.10"), Decimal("-0"), Decimal("123456789012345678901234567890.5"),
+        ])
         q = Q(mag, u)
         mkind = type(mag).__name__
         ustr_class = None
@@ -173,12 +178,13 @@ def run(ctx):
                 continue
             identical_unit_required = cname.startswith("pickle") or cname in ("cloudpickle", "copy", "deepcopy", "pydantic-python")
             if identical_unit_required:
-                if y.unit is not u or type(y.magnitude) is not type(mag) or y.magnitude != mag:
+                if y.unit is not u or type(y.magnitude) is not type(mag) or y.magnitude != mag or str(y.magnitude) != str(mag):
                     ctx.violation(f"C15:{cname}:quantity-changed", f"{cname} round trip of {q!r} returned {y!r}", case)
                 continue
             # text forms: the unit travels as str(unit) and may legitimately come back as an equal unit with the
             # magnitude scaled (prefix folding); judge by SI value and magnitude type
-            ok_type = type(y.magnitude) is type(mag) or (isinstance(mag, int) and isinstance(y.magnitude, (int, float)))
+            # the magnitude keeps its type; only prefix folding by str(unit) may turn an int into a float
+            ok_type = type(y.magnitude) is type(mag) or (type(mag) is int and type(y.magnitude) is float and y.unit is not u)
             same = False
             if orc.knows(u) and orc.knows(y.unit) and mdl.dim_of_unit(u) == mdl.dim_of_unit(y.unit):
                 a, b = orc.si_value(q.magnitude, q.unit), orc.si_value(y.magnitude, y.unit)
